@@ -1,6 +1,7 @@
 """C16 -- ref backends obey one contract; the files backend matches git's view; ref-name validity.
 
-Specs: RefMap.tla (pure operators: the contract), RefMapSeq.tla (sequential store), RefMapFiles.tla
+Specs: RefMap.tla (pure operators: the contract), RefMapSeq.tla (sequential store), RefMapRefuse.tla (one
+call while another process holds packed-refs.lock or a ref's lock: refused => map unchanged), RefMapFiles.tla
 (files backend: loose / packed / directories, pack_refs, C git packing, re-opening; refines
 RefMapSeq), RefMapTrace.tla (monitor), RefName.tla (+ RefNameTrace.tla).
 
@@ -383,6 +384,59 @@ def report_findings(ctx):
                                f"(environment, e.g. memory pressure); they are listed under coverage.not_reproduced, not reported")
 
 
+def start_refuse(ctx, pool_tlc):
+    """RefMapRefuse: the cases (dumped for the replay), the step model of remove_if_equals, its negative control."""
+    d = ctx.tmpdir("rf")
+    dump = os.path.join(d, "cases")
+    return {"cases": pool_tlc.submit(tlc.run, "RefMapRefuse.tla", "RefMapRefuse_cases.cfg", workers=2, timeout=900, dump_states=dump),
+            "steps": pool_tlc.submit(tlc.run, "RefMapRefuse.tla", "RefMapRefuse_steps.cfg", workers=2, timeout=600),
+            "neg": pool_tlc.submit(tlc.run, "RefMapRefuse.tla", "RefMapRefuse_neg_LooseFirst.cfg", workers=2, timeout=600)}, dump
+
+
+def phase_refuse(ctx, rfuts, dump, nproc):
+    """Calls made while another process holds packed-refs.lock / a ref's lock: every case TLC enumerates is
+    executed on DiskRefsContainer; a refused call must leave the map unchanged (container, re-opened, C git)."""
+    from .. import c16_refuse as R
+    res = rfuts["cases"].result()
+    ctx.add_tlc("RefMapRefuse_cases (placement x call x held lock; outcomes refused / done: TypeOKR, OutcomeOK)", res)
+    pairs = R.load_cases(dump)
+    if not pairs:
+        raise MachineryError("RefMapRefuse: no cases in the dump")
+    jobs = [(w, pairs[w::nproc], _G["objs"], _G["scratch"], _G["git"]) for w in range(nproc)]
+    with mp.get_context("fork").Pool(nproc) as pool:
+        rs = pool.map(R.worker, jobs, chunksize=1)
+    tot = {k: sum(r[k] for r in rs) for k in ("cases", "refused", "validated", "unbuilt")}
+    by_op = {}
+    for r in rs:
+        _G["findings"] += r["findings"]
+        for k, v in r["by_op"].items():
+            by_op[k] = by_op.get(k, 0) + v
+        for key in r["nontrivial"]:
+            ctx.nontrivial(("held-lock",) + tuple(key))
+        if r["sample"]:
+            ctx.sample(r["sample"], limit=5)
+    ctx.count(tot["cases"])
+    ctx.validated(tot["validated"])
+    ctx.log(f"held-lock cases: {tot['cases']}/{len(pairs)} executed, {tot['refused']} refused by the real code "
+            f"({by_op}), {tot['validated']} conform, placement not reached {tot['unbuilt']}")
+    if tot["refused"] == 0:
+        raise MachineryError("RefMapRefuse: the real code refused no call under a held lock (the locks are not where the code looks)")
+    if tot["unbuilt"]:
+        ctx.assumptions.append(f"held-lock cases: {tot['unbuilt']} placements could not be reached with real calls and were skipped")
+    ctx.cov["held_lock"] = {"cases": len(pairs), "executed": tot["cases"], "refused_by_real_code": tot["refused"],
+                            "refused_by_method": by_op, "conform": tot["validated"]}
+    res = rfuts["steps"].result()
+    ctx.add_tlc("RefMapRefuse_steps (remove_if_equals step by step under a held lock: RefusedUnchanged, DoneApplied)", res)
+    res = rfuts["neg"].result()
+    ctx.add_tlc("RefMapRefuse negative control LooseFirst (expects RefusedUnchanged)", res, require_ok=False)
+    if "RefusedUnchanged" not in violated(res):
+        raise MachineryError(f"negative control LooseFirst did not violate RefusedUnchanged\n{res.output[-2000:]}")
+    try:
+        os.remove(dump + ".dump" if os.path.exists(dump + ".dump") else dump)
+    except OSError:
+        pass
+
+
 # ------------------------------------------------------------------------------- entry
 def setup(ctx):
     from ..c16_backends import Objects
@@ -406,6 +460,7 @@ def run(ctx):
     with cf.ThreadPoolExecutor(max_workers=ctx.pick(5, 6)) as pool_tlc:
         futs, dot, graph_cfg = phase_models(ctx, pool_tlc)                 # TLC runs in the background
         name_futs = c16_refname.start_models(ctx, pool_tlc)
+        rfuts, rdump = start_refuse(ctx, pool_tlc)
         traces = record_traces(ctx, nproc)                                 # meanwhile: real executions
         vfuts = submit_validation(ctx, pool_tlc, traces, nproc)
         from .. import c16_trace as T
@@ -417,6 +472,7 @@ def run(ctx):
         res = futs["graph"].result()
         ctx.add_tlc(f"{graph_cfg} (state graph replayed on the real containers)", res)
         exhaustive = phase_replay(ctx, dot, nproc)
+        phase_refuse(ctx, rfuts, rdump, nproc)
         try:
             os.remove(dot)
         except OSError:
@@ -438,6 +494,8 @@ def run(ctx):
         "state graph exhaustive for the configured universe only (quick: HEAD, refs/heads/a, refs/heads/a/b; thorough adds refs/tags/t); "
         "beyond it: random traces",
         "reflog, worktree-specific refs, NamespacedRefsContainer and concurrent use are outside this check (C08 covers concurrency)",
+        "held-lock cases (RefMapRefuse): the other process is a lock file created before one call and removed after it without "
+        "changes; universe HEAD + two branches, no colliding names; a raised call must leave the map unchanged",
     ]
     # every transition of the configured state graph was replayed (if `exhaustive`), but the larger universes are
     # sampled (random traces, simulation, sampled long names): the run as a whole is not exhaustive
@@ -453,6 +511,14 @@ def replay(ctx, path):
     if obj.get("kind") == "refname":
         return c16_refname.replay(ctx, obj)
     setup(ctx)
+    if obj.get("kind") == "refuse":
+        from .. import c16_refuse as R
+        want, hit = obj.get("signature"), False
+        for sig, what in R.replay_case(_G["objs"], ctx.scratch, _G["git"], obj):
+            hit = hit or sig == want
+            print(f"FAILED CLAUSE {sig}{'  <== the recorded violation' if sig == want else ''}\n   {what}")
+        print("replay verdict: VIOLATION reproduced" if hit else "replay verdict: the recorded signature did not reproduce")
+        return 1 if hit else 0
     uni = obj.get("universe") or "big"
     names, values, objs, with_git = T.universe(uni, {"big": _G["objs_big"], "wide": _G["objs_wide"]})
     from ..c16_backends import GitView
